@@ -575,7 +575,13 @@ func (x *Exec) callByContractFull(s *State, c *Contract, name string, pnames []s
 	}
 	// havoc
 	targets := x.resolveAssigns(c.Assigns, envPre)
+	allocBefore := x.getSt(s, "alloc", arraySort(SRef, SBool))
 	x.applyHavoc(s, targets)
+	if allocAfter := x.getSt(s, "alloc", arraySort(SRef, SBool)); allocAfter != allocBefore {
+		// allocation is monotone
+		r := V("r?", SRef)
+		s.assume(Forall([]*Term{r}, Implies(Select(allocBefore, r), Select(allocAfter, r))))
+	}
 	if !c.HasAssigns && !c.Pure {
 		x.fail(call, "contract %s has no assigns clause (write 'assigns nothing' or 'pure')", name)
 	}
